@@ -231,5 +231,7 @@ int main(int argc, char** argv)
     dump(toks[0], n, items, "DONE");
     file_queue_destroy();
   }
+  free(line);
+  for (int t = 0; t < MAX_THREADS_H; t++) free(vf_log[t]);
   return 0;
 }
